@@ -321,7 +321,17 @@ pub fn codec_sweep(case: &Value) -> Value {
 pub fn run_front(case: &Value) -> Value {
     let srcs: Vec<String> = serde_json::from_value(case["srcs"].clone()).unwrap_or_default();
     let mut outs: Vec<String> = Vec::with_capacity(srcs.len());
+    crate::FRONT_OUTS.lock().unwrap().clear();
     for src in srcs.iter() {
+        // publish what is done so far: a hang is reported with the outcomes before it
+        {
+            let mut g = crate::FRONT_OUTS.lock().unwrap();
+            while g.len() < outs.len() {
+                let k = g.len();
+                g.push(outs[k].clone());
+            }
+        }
+        crate::progress();
         let parsed = guarded("parse", || {
             let scanner = Scanner::new(src);
             let mut parser = Parser::new(scanner);
